@@ -5,10 +5,13 @@
 package main
 
 import (
+	"crypto/sha256"
+	"encoding/hex"
 	"encoding/json"
 	"flag"
 	"fmt"
 	"os"
+	"path/filepath"
 	"sort"
 	"strings"
 	"sync"
@@ -31,6 +34,10 @@ type classStat struct {
 
 type stats struct {
 	mu       sync.Mutex
+	viol     map[string]*vlib.Violation // first case per signature: every signature gets a replay file, not only the printed ones
+	violN    map[string]int
+	pending  []pendingViolation
+	hung     []Case // watchdog expiries, confirmed by a second, solitary execution before they are reported
 	byClass  map[string]*classStat
 	stages   map[string]int
 	pairs    map[string]bool // distinct (class, site kind) injected
@@ -49,8 +56,90 @@ func caseMap(c *Case, o outcome) map[string]any {
 		"base": c.Base, "expect": c.Expect, "observed": o.String()}
 }
 
+type pendingViolation struct {
+	sig, msg string
+	c        map[string]any
+}
+
+// report buffers a violation; flush hands them to the framework in a deterministic order (per signature the smallest
+// schema first), so the witness kept for a signature does not depend on goroutine scheduling.
+func (s *stats) report(run *vlib.Run, sig, msg string, c map[string]any) {
+	s.mu.Lock()
+	s.pending = append(s.pending, pendingViolation{sig, msg, c})
+	s.mu.Unlock()
+}
+
+func (s *stats) flush(run *vlib.Run) {
+	text := func(p pendingViolation) string { t, _ := p.c["schema"].(string); return t }
+	sort.Slice(s.pending, func(i, j int) bool {
+		a, b := s.pending[i], s.pending[j]
+		if a.sig != b.sig {
+			return a.sig < b.sig
+		}
+		ta, tb := text(a), text(b)
+		if len(ta) != len(tb) {
+			return len(ta) < len(tb)
+		}
+		return ta < tb
+	})
+	for _, p := range s.pending {
+		if s.viol[p.sig] == nil {
+			s.viol[p.sig] = &vlib.Violation{Property: run.Property, Signature: p.sig, Message: vlib.Short(p.msg, 1500), Case: p.c}
+		}
+		s.violN[p.sig]++
+		run.Report(p.sig, p.msg, p.c)
+	}
+	s.pending = nil
+}
+
+// writeReplays writes one replay file per observed signature (same naming scheme and format as vlib's) and prints the
+// signatures grouped by (class, site kind) - the framework itself prints and persists only the first 25.
+func (s *stats) writeReplays(run *vlib.Run) {
+	dir := filepath.Join(vlib.VerifDir(), "replays", run.Property)
+	_ = os.MkdirAll(dir, 0o755)
+	groups := map[string][]string{}
+	for sig, v := range s.viol {
+		b, _ := json.MarshalIndent(v, "", " ")
+		h := sha256.Sum256([]byte(sig))
+		_ = os.WriteFile(filepath.Join(dir, hex.EncodeToString(h[:6])+".json"), b, 0o644)
+		parts := strings.Split(sig, "|")
+		g := sig
+		if len(parts) > 3 {
+			g = strings.Join(parts[:3], "|")
+		}
+		groups[g] = append(groups[g], sig)
+	}
+	keys := make([]string, 0, len(groups))
+	for g := range groups {
+		keys = append(keys, g)
+	}
+	sort.Strings(keys)
+	if len(keys) > 0 {
+		fmt.Printf("C13 observed %d signatures in %d groups (before known-finding filtering; every signature has a replay file in %s):\n", len(s.viol), len(keys), dir)
+	}
+	for _, g := range keys {
+		sort.Strings(groups[g])
+		n := 0
+		for _, sig := range groups[g] {
+			n += s.violN[sig]
+		}
+		first := groups[g][0]
+		h := sha256.Sum256([]byte(first))
+		fmt.Printf("  GROUP %s* : %d signatures, %d cases; e.g. %s  [%s.json]\n", g, len(groups[g]), n, first, hex.EncodeToString(h[:6]))
+	}
+}
+
 // judge compares the implementation's outcome with the reference expectation and reports.
 func judge(run *vlib.Run, st *stats, c *Case, o outcome) {
+	if o.Hung && !c.confirm {
+		// a loaded machine must not turn into a non-termination report: run it again, alone, at the end
+		st.mu.Lock()
+		cc := *c
+		cc.confirm = true
+		st.hung = append(st.hung, cc)
+		st.mu.Unlock()
+		return
+	}
 	st.mu.Lock()
 	cs := st.class(c.Class)
 	if !c.Control {
@@ -93,18 +182,18 @@ func judge(run *vlib.Run, st *stats, c *Case, o outcome) {
 	}
 	switch {
 	case o.Hung:
-		run.Report(c.sig()+"|non-termination", fmt.Sprintf("%s (%s; base %s): %s", what, c.Site, c.Base, o), caseMap(c, o))
+		st.report(run, c.sig()+"|non-termination", fmt.Sprintf("%s (%s; base %s): %s", what, c.Site, c.Base, o), caseMap(c, o))
 	case o.Panic != "":
-		run.Report(c.sig()+"|panic", fmt.Sprintf("%s (%s; base %s): %s - a panic is not an error result", what, c.Site, c.Base, o), caseMap(c, o))
+		st.report(run, c.sig()+"|panic", fmt.Sprintf("%s (%s; base %s): %s - a panic is not an error result", what, c.Site, c.Base, o), caseMap(c, o))
 	case c.Control:
 	case c.Expect == "reject" && o.accepted():
-		run.Report(c.sig()+"|accepted", fmt.Sprintf("schema with a %s error (%s; base schema %q) must be rejected by ReadFile or Generate, but it was %s", c.Class, c.Site, c.Base, o), caseMap(c, o))
+		st.report(run, c.sig()+"|accepted", fmt.Sprintf("schema with a %s error (%s; base schema %q) must be rejected by ReadFile or Generate, but it was %s", c.Class, c.Site, c.Base, o), caseMap(c, o))
 	case c.Expect == "accept" && o.rejected():
 		why := "valid schema without any recursion"
 		if c.Class == "terminating-recursion" {
 			why = "schema whose recursion can terminate (it passes through a message or a union)"
 		}
-		run.Report(c.sig()+"|rejected-by-"+o.Stage, fmt.Sprintf("%s (%s; %s) must be accepted, but it was %s", why, c.Class, c.Site, o), caseMap(c, o))
+		st.report(run, c.sig()+"|rejected-by-"+o.Stage, fmt.Sprintf("%s (%s; %s) must be accepted, but it was %s", why, c.Class, c.Site, o), caseMap(c, o))
 	}
 }
 
@@ -207,7 +296,7 @@ func main() {
 		replay(*rp)
 	}
 	run := vlib.NewRun(*prop, "model_checking")
-	st := &stats{byClass: map[string]*classStat{}, stages: map[string]int{}, pairs: map[string]bool{}}
+	st := &stats{byClass: map[string]*classStat{}, stages: map[string]int{}, pairs: map[string]bool{}, viol: map[string]*vlib.Violation{}, violN: map[string]int{}}
 
 	// 1. base schemas: structurally valid for the harness, and accepted by the implementation.
 	bases := allBases()
@@ -345,6 +434,13 @@ func main() {
 		})
 	}
 
+	// watchdog expiries are re-executed one at a time; only a second expiry is reported as non-termination
+	for i := range st.hung {
+		c := &st.hung[i]
+		judge(run, st, c, runSchema(c.Schema, true))
+	}
+	run.Coverage["watchdog_expiries_first_pass"] = len(st.hung)
+
 	// coverage
 	perClass := map[string]any{}
 	injected, controls := 0, 0
@@ -382,5 +478,7 @@ func main() {
 		"flag expressions are written so that they mean the same under every precedence/associativity",
 		"graphs bounded to n<=3 (all kinds) and n=4 (quick: all-struct; thorough: all kinds, struct-branch unions); rings to length 4/6; chains/rings of 8..64/128 structs for termination",
 	}
+	st.flush(run)
+	st.writeReplays(run)
 	run.Finish()
 }
